@@ -38,7 +38,7 @@ FLAVOURS = {
     'fuzz': dict(cxx='clang++', flags=['-O1', '-fsanitize=fuzzer-no-link,address,undefined',
                                        '-fno-sanitize=vptr,alignment,nonnull-attribute,object-size',
                                        '-fno-sanitize-recover=all'],
-                 ld=['-fsanitize=fuzzer,address,undefined']),
+                 ld=['-fsanitize=fuzzer,address,undefined', '-fno-sanitize=vptr,alignment,nonnull-attribute,object-size']),
 }
 
 _ver_cache = {}
